@@ -8,7 +8,7 @@ from . import core
 from . import asmdiff as A
 
 IDS = {"6502": ["ZP", "RAM", "PRG", "OTHER"], "sm83": ["ROM", "WRAM", "SRAM", "VRAM", "HRAM", "XYZ"], "z80": ["ANY"]}
-BANKS = ["0", "1", "a", "A", "1F", "ff", "zz", "", "+2"]
+BANKS = ["0", "1", "a", "A", "1F", "ff", "100", "1A3", "ffff", "12345", "zz", "", "+2"]
 
 
 class Gen:
@@ -20,7 +20,7 @@ class Gen:
         self.n = 0
         self.addr = 0
         self.probes = []     # (@getmeta expression source, expected string)
-        self.feat = {"meta_open": 0, "meta_replace": 0, "meta_close": 0, "label": 0, "defl": 0, "defn": 0, "struct": 0, "later": 0, "getmeta": 0}
+        self.feat = {"meta_open": 0, "meta_replace": 0, "meta_close": 0, "label": 0, "defl": 0, "defn": 0, "struct": 0, "later": 0, "getmeta": 0, "redefl": 0, "redefn": 0}
 
     def fresh(self, p):
         self.n += 1
@@ -77,7 +77,24 @@ class Gen:
             self.lines.append(f"@defn {n}, {v}")
             self.expect[n] = (v, {})           # constants carry no metadata
             self.feat["defn"] += 1
+        elif r < 0.76:
+            # @redefn of a fresh or an existing constant: never any metadata, whatever block is open
+            old = [k for k in self.expect if k.startswith("dn")]
+            n = rng.choice(old) if old and rng.random() < 0.5 else self.fresh("dn")
+            v = rng.randint(0, 0xFFFF)
+            self.lines.append(f"@redefn {n}, {v}")
+            self.expect[n] = (v, {})
+            self.feat["redefn"] += 1
         elif r < 0.8:
+            # @redefl of a fresh or an existing lazily defined symbol: it is defined here, so it
+            # carries the block open here
+            old = [k for k in self.expect if k.startswith("dl") and not isinstance(self.expect[k][0], tuple)]
+            n = rng.choice(old) if old and rng.random() < 0.5 else self.fresh("dl")
+            v = rng.randint(0, 0xFFFF)
+            self.lines.append(f"@redefl {n}, ${v:x}")
+            self.expect[n] = (v, dict(self.meta))
+            self.feat["redefl"] += 1
+        elif r < 0.86:
             n = self.fresh("S")
             self.lines += [f"@struct {n}", "  fa @db", "  fb 4", "@endstruct"]
             self.expect[n] = (5, {})           # struct names carry none
@@ -233,7 +250,7 @@ def run(tier, seed):
     return chk.finish(
         checker_cmd="cd /verif/lean && lake build Az65.Thm.C20 && #print axioms audit",
         trusted_base=C.TRUSTED + ["the reference symbol/metadata table kept by the generator in checks/c20.py"],
-        rule="case = program opening / replacing / closing @meta blocks (ID over every category the exporters recognise and one they do not, BANK incl. non-hex, extra keys) around labels, @defl (incl. later-defined), @defn, structs, with @getmeta probes; the -g JSON, .sym or .nl export is parsed and compared as a set with the Model and with the reference table; distinct = distinct (program, format)")
+        rule="case = program opening / replacing / closing @meta blocks (ID over every category the exporters recognise and one they do not, BANK incl. non-hex, extra keys) around labels, @defl (incl. later-defined), @defn, @redefl, @redefn (fresh and existing names), structs, with @getmeta probes; the -g JSON, .sym or .nl export is parsed and compared as a set with the Model and with the reference table; distinct = distinct (program, format)")
 
 
 replay = core.replay
